@@ -207,7 +207,9 @@ def k_reject(ctx, cls, bad, where):
     metric = _make(cls, {})
     good = frame([["TRAV1-1*01", "CAVF", "TRBV9*01", "CASSF"], ["TRAV2*01", "CAAF", "TRBV9*01", "CASSW"]])
     obj = {"list": ["CASSF", "CASSW"], "ndarray": np.array(["CASSF", "CASSW"]), "series": pd.Series(["CASSF", "CASSW"]),
-           "none": None, "frame_without_tcr_columns": pd.DataFrame({"x": [1, 2], "cdr3": ["CASSF", "CASSW"]})}[bad]
+           "none": None, "frame_without_tcr_columns": pd.DataFrame({"x": [1, 2], "cdr3": ["CASSF", "CASSW"]}),
+           "empty_frame": pd.DataFrame(), "empty_frame_with_other_column": pd.DataFrame(columns=["Epitope"]),
+           "rows_without_columns": pd.DataFrame(index=[0, 1]), "string": "CASSF", "dict": {"CDR3B": ["CASSF"]}}[bad]
     ctx.count("reject_cases")
     ctx.nontriv(["R", cls, bad, where])
     ctx.sample("reject", {"cls": cls, "bad": bad, "where": where})
@@ -279,7 +281,8 @@ def generate(tier, seed):
         if chains != "AB":
             yield "metric", {"cls": cls, "w": {}, "anchors": WIT, "comps": WIT[1:], "cols": chains}, True
             yield "metric", {"cls": cls, "w": rand_weights(rng, cls), "anchors": WIT[:4], "comps": WIT, "cols": chains, "index": "shifted"}, True
-        for bad in ("list", "ndarray", "series", "none", "frame_without_tcr_columns"):
+        for bad in ("list", "ndarray", "series", "none", "frame_without_tcr_columns", "empty_frame", "empty_frame_with_other_column",
+                    "rows_without_columns", "string", "dict"):
             for where in (("anchors", "comparisons", "pdist") if thorough else ("anchors", "pdist") if bad != "list" else ("comparisons",)):
                 yield "reject", {"cls": cls, "bad": bad, "where": where}, True
     n_rand = 3000 * TS if thorough else 150
